@@ -118,7 +118,7 @@ def overflow_covers_maintenance(ctx, rid="R2"):
         return
     cap = fd.slice_operand_pure(dn[0], dn[0].args[3])["atoms"]
     has_trips = "param:2" in cap
-    has_tracks = "param:3" in cap or call("model::network::nodes::MaintenanceSlot::track_count") in cap
+    has_tracks = call("model::network::nodes::MaintenanceSlot::track_count") in cap or field("model::network::nodes::MaintenanceSlot", "track_count") in cap
     ctx.decide(o, has_trips and has_tracks, "capacity derives from the service trips and from the maintenance slots",
                "the overflow capacity is computed from the service trips only: every track of a maintenance slot allotted to a type is a "
                "lower bound of 1 on a flow edge; with scarce real depots and few trips the forced maintenance vehicles exceed the overflow "
@@ -214,3 +214,5 @@ def rules(ctx):
     from .C16 import every_vehicle_type
     for key, tag in (("server::solve_instance", "R4.server"), ("internal::run", "R4.internal")):
         every_vehicle_type(ctx, key, tag)
+    from .C03 import location_names_are_total
+    location_names_are_total(ctx, "R4")
